@@ -1580,16 +1580,22 @@ impl Stack {
 
     /// Push a message.
     fn push(&self, msg: Message) {
+        #[cfg(ripgrep_verif)]
+        verif::yield_point(self.index, verif::PUSH);
         self.deque.push(msg);
     }
 
     /// Pop a message.
     fn pop(&self) -> Option<Message> {
+        #[cfg(ripgrep_verif)]
+        verif::yield_point(self.index, verif::POP);
         self.deque.pop().or_else(|| self.steal())
     }
 
     /// Steal a message from another queue.
     fn steal(&self) -> Option<Message> {
+        #[cfg(ripgrep_verif)]
+        verif::yield_point(self.index, verif::STEAL);
         // For fairness, try to steal from index + 1, index + 2, ... len - 1,
         // then wrap around to 0, 1, ... index - 1.
         let (left, right) = self.stealers.split_at(self.index);
@@ -1599,7 +1605,11 @@ impl Stack {
         right
             .iter()
             .chain(left.iter())
-            .map(|s| s.steal_batch_and_pop(&self.deque))
+            .map(|s| {
+                #[cfg(ripgrep_verif)]
+                verif::yield_point(self.index, verif::STEAL_ONE);
+                s.steal_batch_and_pop(&self.deque)
+            })
             .find_map(|s| s.success())
     }
 }
